@@ -203,50 +203,117 @@ func runAW(sl *slot, cont []string) (*failure, string, error) {
 		fmt.Sprintf("script [%s]: nodes read %s and %s (needBroadcastCount %v)", hist, out, strings.Join(miss, ", "), nbc)}, "", nil
 }
 
-func awBody(c *explore.Ctx) {
-	sl := c.User.(*slot)
-	armed := [3]bool{true, true, !awPrefixTick}
-	removed := [2]bool{}
-	open, holds, rearmed := -1, 0, false
-	var cont []string
-	for len(cont) < awDepth {
-		var en []string
-		for i := 0; i < 3; i++ {
-			if open == i {
-				en = append(en, fmt.Sprintf("e%d", i))
-			} else if armed[i] {
-				en = append(en, fmt.Sprintf("t%d", i))
-				if holds == 0 && open < 0 && len(cont)+1 < awDepth {
-					en = append(en, fmt.Sprintf("b%d", i))
-				}
+// awPlan is the bookkeeping that decides which continuation moves are offered.
+type awPlan struct {
+	armed   [3]bool
+	removed [2]bool
+	open    int
+	holds   int
+	rearmed bool
+	n       int
+}
+
+func newAWPlan() *awPlan { return &awPlan{armed: [3]bool{true, true, !awPrefixTick}, open: -1} }
+
+func (p *awPlan) enabled() []string {
+	var en []string
+	if p.n >= awDepth {
+		return en
+	}
+	for i := 0; i < 3; i++ {
+		if p.open == i {
+			en = append(en, fmt.Sprintf("e%d", i))
+		} else if p.armed[i] {
+			en = append(en, fmt.Sprintf("t%d", i))
+			if p.holds == 0 && p.open < 0 && p.n+1 < awDepth {
+				en = append(en, fmt.Sprintf("b%d", i))
 			}
 		}
-		if !removed[0] {
-			en = append(en, "r0")
-		} else if !removed[1] {
-			en = append(en, "r1")
+	}
+	if !p.removed[0] {
+		en = append(en, "r0")
+	} else if !p.removed[1] {
+		en = append(en, "r1")
+	}
+	return en
+}
+
+func (p *awPlan) apply(m string) {
+	p.n++
+	i := int(m[1] - '0')
+	switch m[0] {
+	case 't':
+		p.armed[i] = false
+	case 'b':
+		p.open, p.holds, p.rearmed = i, p.holds+1, false
+	case 'e':
+		p.armed[p.open] = p.rearmed
+		p.open = -1
+	case 'r':
+		p.removed[i] = true
+		p.armed[i] = true
+		if p.open == i {
+			p.rearmed = true
+		}
+	}
+}
+
+// awAll lists every continuation of exactly length n, in the order the moves are offered.
+func awAll(n int) [][]string {
+	var out [][]string
+	var rec func(p awPlan, pre []string)
+	rec = func(p awPlan, pre []string) {
+		if len(pre) == n {
+			out = append(out, append([]string{}, pre...))
+			return
+		}
+		for _, m := range p.enabled() {
+			q := p
+			q.apply(m)
+			rec(q, append(pre, m))
+		}
+	}
+	rec(*newAWPlan(), nil)
+	return out
+}
+
+// awFirstWitness returns the first continuation in length-then-offer order (up to maxLen moves) that
+// reports key three times out of three: the same witness in every run.
+func awFirstWitness(sl *slot, key string, maxLen int) ([]string, string) {
+	for n := 0; n <= maxLen; n++ {
+		for _, cont := range awAll(n) {
+			what := ""
+			ok := true
+			for k := 0; k < 3 && ok; k++ {
+				f, _, err := runAW(sl, cont)
+				ok = err == nil && f != nil && f.key == key
+				if ok {
+					what = f.what
+				}
+			}
+			if ok {
+				return cont, what
+			}
+		}
+	}
+	return nil, ""
+}
+
+func awBody(c *explore.Ctx) {
+	sl := c.User.(*slot)
+	p := newAWPlan()
+	var cont []string
+	for {
+		en := p.enabled()
+		if len(en) == 0 {
+			break
 		}
 		k := c.Choose(1+len(en), "mv")
 		if k == 0 {
 			break
 		}
-		m := en[k-1]
-		cont = append(cont, m)
-		switch m[0] {
-		case 't':
-			armed[m[1]-'0'] = false
-		case 'b':
-			open, holds, rearmed = int(m[1]-'0'), holds+1, false
-		case 'e':
-			armed[open] = rearmed
-			open = -1
-		case 'r':
-			removed[m[1]-'0'] = true
-			armed[m[1]-'0'] = true
-			if open == int(m[1]-'0') {
-				rearmed = true
-			}
-		}
+		cont = append(cont, en[k-1])
+		p.apply(en[k-1])
 	}
 	f, out, err := runAW(sl, cont)
 	if err != nil {
